@@ -690,7 +690,9 @@ def symbolic_run(contract: Contract, tier="quick", mutate=None, stop_on=None) ->
     budget = contract.budget_quick if tier == "quick" else contract.budget_thorough
     if mutate is not None:
         timeout = min(timeout, 15)  # canary runs only need the refutation, which is fast
-        budget = 300  # generous: a loaded machine must not turn a caught mutant into "not caught"
+        # generous: a loaded machine must not turn a caught mutant into "not caught"; a contract with many slow paths
+        # states its own (canary_budget)
+        budget = getattr(contract, "canary_budget", 300)
     try:
         pf, sha = contract.load()
         res.sha = sha
